@@ -4,7 +4,7 @@
 From Coq Require Import List ZArith QArith Qcanon Bool Arith.
 From Dimod Require Import Base.Util Model.Poly Model.View Model.Hist Model.ChkC04
   Proofs.PolyFacts Proofs.ViewFacts Proofs.HistFacts Proofs.HistWf Proofs.HistWf2 Proofs.HistAtomic
-  Proofs.HistContract Proofs.HistAtomicQM Proofs.HistQmAtomic Proofs.HistQmPres Proofs.HistLoops Proofs.HistBqmReach Proofs.HistViewStep Proofs.HistViewStep2 Proofs.HistViewStep3 Proofs.HistContractView Gen.Gen_ViewWrites Proofs.HistGenTie2 Gen.Gen_QmLimits Gen.Gen_RelabelRules Proofs.HistGenTie Proofs.HistBackends.
+  Proofs.HistContract Proofs.HistAtomicQM Proofs.HistQmAtomic Proofs.HistQmPres Proofs.HistLoops Proofs.HistBqmReach Proofs.HistViewStep Proofs.HistViewStep2 Proofs.HistViewStep3 Proofs.HistContractView Gen.Gen_ViewWrites Proofs.HistGenTie2 Gen.Gen_QmLimits Gen.Gen_RelabelRules Proofs.HistGenTie Proofs.HistBackends Proofs.HistCoeffEq.
 From Dimod Require Model.Adj Proofs.AdjFacts.
 Import ListNotations.
 Open Scope Qc_scope.
@@ -495,6 +495,93 @@ Theorem C04_resize_shrink_keeps_prefix :
     st_vars (fst (step s (h, OResize n fresh))) = firstn (Z.to_nat n) (st_vars s).
 Proof. exact resize_shrink_keeps_prefix. Qed.
 Print Assumptions C04_resize_shrink_keeps_prefix.
+
+(* ---------- coefficient equivalence: the back-ends over histories of the order-insensitive calls ---------- *)
+(* `ceq s s'`: same kind, same SET of variable records, same offset, same linear bias per variable, same bias per
+   unordered pair, same set of interactions present - the order of the variables and of the stored terms is free.
+   Equivalently (C04_coefficient_equivalence_iff_energy): same kind / variables / interaction set and the same energy
+   on every sample.  `R s s'`: both are well-formed BQMs and ceq.  `ceq_ok`: every call of the model, on the base object
+   or through any .spin/.binary handle (translating or not) - primitive writes, *_from loops, named remove_variable,
+   remove_interaction, contract_variables, flip_variable, fix_variable, update, change_vartype, relabel_variables,
+   offset, clear, plain scale (and the QuadraticModel-only calls, refused at once) - EXCEPT the calls that address a
+   variable by its POSITION in the order (pop, resize, relabel_variables_as_integers: refuted below) and scale with
+   ignored sets / through a handle (its pair loop visits each pair in an order-dependent ORIENTATION; not proved).
+   The neighbourhood loops of flip / fix / contract / remove_variable-through-a-view run over differently ordered
+   neighbourhoods on the two sides; the proof shows that their steps never raise and commute up to ceq. *)
+Theorem C04_backends_equivalent_histories :
+  forall l s s', forallb ceq_ok l = true -> B s -> wf s -> B s' -> wf s' -> ceq s s' ->
+    outcomes s l = outcomes s' l /\ ceq (run s l) (run s' l)
+    /\ forall y, energy (st_poly (run s l)) y = energy (st_poly (run s' l)) y.
+Proof. exact ceq_histories_energy. Qed.
+Print Assumptions C04_backends_equivalent_histories.
+
+(* the same with the dict-order discipline of the object-dtype back-end on the right (relabel_variables re-inserts the
+   relabelled variables at the end): generalises C04_backends_indistinguishable from `sim` (same term list) to `ceq` *)
+Theorem C04_backends_equivalent_histories_dict_order :
+  forall l s s', forallb ceq_ok l = true -> R s s' ->
+    outcomes s l = outcomes s' (py_hist l) /\ R (run s l) (run s' (py_hist l)).
+Proof. exact ceq_histories_py. Qed.
+Print Assumptions C04_backends_equivalent_histories_dict_order.
+
+Theorem C04_backends_equivalent_step :
+  forall s s' ho, ceq_ok ho = true -> R s s' -> Rr (step s ho) (step s' ho).
+Proof. exact ceq_step. Qed.
+Print Assumptions C04_backends_equivalent_step.
+
+(* one lemma per looping call *)
+Theorem C04_equivalent_flip : forall h v s s', R s s' -> Rr (m_flip h v s) (m_flip h v s').
+Proof. exact Rr_m_flip. Qed.
+Print Assumptions C04_equivalent_flip.
+Theorem C04_equivalent_fix : forall h v a s s', R s s' -> Rr (m_fix h v a s) (m_fix h v a s').
+Proof. exact Rr_m_fix. Qed.
+Print Assumptions C04_equivalent_fix.
+Theorem C04_equivalent_contract : forall h u v s s', R s s' -> Rr (m_contract h u v s) (m_contract h u v s').
+Proof. exact Rr_m_contract. Qed.
+Print Assumptions C04_equivalent_contract.
+Theorem C04_equivalent_update : forall h o s s', R s s' -> Rr (m_update_bqm h o s) (m_update_bqm h o s').
+Proof. exact Rr_m_update_bqm. Qed.
+Print Assumptions C04_equivalent_update.
+Theorem C04_equivalent_change_vartype :
+  forall h vt s s', R s s' -> Rr (step s (h, OChangeVartype vt)) (step s' (h, OChangeVartype vt)).
+Proof. exact Rr_change_vartype. Qed.
+Print Assumptions C04_equivalent_change_vartype.
+Theorem C04_equivalent_remove_variable_any_handle :
+  forall h v s s', R s s' -> Rr (h_remove_variable h (Some v) s) (h_remove_variable h (Some v) s').
+Proof. exact Rr_h_remove_variable_some. Qed.
+Print Assumptions C04_equivalent_remove_variable_any_handle.
+Theorem C04_equivalent_set_linear_any_handle :
+  forall h v b s s', R s s' -> Rr (h_set_linear h v b s) (h_set_linear h v b s').
+Proof. exact Rr_h_set_linear. Qed.
+Print Assumptions C04_equivalent_set_linear_any_handle.
+
+Theorem C04_coefficient_equivalence_iff_energy :
+  forall s s', ceq s s' <->
+    (st_kind s = st_kind s' /\ (forall i, In i (st_vars s) <-> In i (st_vars s')) /\ (forall u v, hasq s u v = hasq s' u v)
+     /\ forall y, energy (st_poly s) y = energy (st_poly s') y).
+Proof. exact ceq_iff_energy. Qed.
+Print Assumptions C04_coefficient_equivalence_iff_energy.
+
+(* the positional calls act on the last / first k / i-th variable of the respective order: from two coefficient-equivalent
+   states they produce different polynomials, so they are (rightly) outside ceq_ok *)
+Theorem C04_pop_breaks_equivalence_refuted :
+  wfb pop_a = true /\ wfb pop_b = true /\ ceq pop_a pop_b
+  /\ lin (fst (step pop_a (Direct, ORemoveVariable None))) 0%nat <> lin (fst (step pop_b (Direct, ORemoveVariable None))) 0%nat.
+Proof. exact ceq_pop_refuted. Qed.
+Print Assumptions C04_pop_breaks_equivalence_refuted.
+
+Theorem C04_positional_calls_break_equivalence_refuted :
+  lin (fst (step pop_a (Direct, OResize 1%Z []))) 0%nat <> lin (fst (step pop_b (Direct, OResize 1%Z []))) 0%nat
+  /\ lin (fst (step pop_a (Direct, ORelabelInts [7%nat; 8%nat]))) 7%nat <> lin (fst (step pop_b (Direct, ORelabelInts [7%nat; 8%nat]))) 7%nat.
+Proof. exact ceq_positional_refuted. Qed.
+Print Assumptions C04_positional_calls_break_equivalence_refuted.
+
+(* non-vacuity: different variable orders and term lists, a history through neighbourhood loops and translating views *)
+Example C04_example_equivalent_history :
+  wfb ex_ca = true /\ wfb ex_cb = true /\ ceqb 6 ex_ca ex_cb = true /\ forallb ceq_ok ex_chist = true
+  /\ outcomes ex_ca ex_chist = [Ok; Ok; Ok; Ok; Ok; Ok; Ok]
+  /\ labels (run ex_ca ex_chist) = [5%nat] /\ ceqb 6 (run ex_ca ex_chist) (run ex_cb (py_hist ex_chist)) = true
+  /\ st_poly (run ex_ca ex_chist) <> st_poly (run ex_cb (py_hist ex_chist)).
+Proof. exact ex_ceq_history. Qed.
 
 (* ---------- contraction through a handle whose vartype coincides with the base's ---------- *)
 Theorem C04_contract_energy_same_vartype_handle :
